@@ -294,7 +294,8 @@ impl<'lifespan> PartialEq<ChemicalCompositionVec<'lifespan>> for ChemicalComposi
         if self.len() != other.len() {
             false
         } else {
-            self.iter().all(|(k, v)| other.get(k) == *v)
+            self.iter()
+                .all(|(k, v)| other.find(k).is_some_and(|i| other.composition[i].1 == *v))
         }
     }
 }
